@@ -11,7 +11,9 @@ Gen(sd) == CASE Mode = "any" -> [class |-> "any", rule |-> GenAny(sd)]
              [] Mode = "segonly" -> GenSegOnly(sd)
              [] Mode = "prosonly" -> GenProsOnly(sd)
              [] Mode = "identity" -> GenIdentity(sd)
+             [] Mode = "pairs" -> [class |-> "pair", rule |-> GenObserverPair(sd)[1], rule2 |-> GenObserverPair(sd)[2]]
 Init == s \in 1..N /\ r = <<>>
 Next == r = <<>> /\ r' = <<Gen(SeedOf(s))>> /\ UNCHANGED s
-Emit == r # <<>> => PrintT(ToJson([seed |-> SeedOf(s), class |-> r[1].class, rule |-> r[1].rule]))
+Emit == r # <<>> => PrintT(ToJson(IF Mode = "pairs" THEN [seed |-> SeedOf(s), class |-> r[1].class, rule |-> r[1].rule, rule2 |-> r[1].rule2]
+                                                    ELSE [seed |-> SeedOf(s), class |-> r[1].class, rule |-> r[1].rule]))
 =============================================================================
